@@ -83,7 +83,7 @@ def graph_obligation(run, info, names):
                 '  run (imports_of tbl) items parse fuel h [] = Some c ->\n'
                 '  load_theory (imports_of tbl) items parse fuel c t = Some (c2, thy) ->\n'
                 '  load_theory (imports_of tbl) items parse fuel [] t = Some (c0, thy0) -> thy = thy0.\n'
-                'Proof. exact (load_history_independent (imports_of tbl) _ _ (rk_of rks) (table_rk_ok tbl rks current_graph_ok)). Qed.\n'
+                'Proof. intros items parse. exact (load_history_independent (imports_of tbl) items parse (rk_of rks) (table_rk_ok tbl rks current_graph_ok)). Qed.\n'
                 'Print Assumptions current_library_history_independent.\n')
     from common import _run_coqc
     rc, out, err = _run_coqc(path, 300)
